@@ -207,6 +207,9 @@ func (e *Engine) worker(id int) {
 		ex.prefixUnchecked = tk.unchecked
 		// incremental solver reuse: keep the assertion levels shared with the previous path of this worker
 		n := len(prev)
+		if os.Getenv("GOSYM_NOREUSE") != "" {
+			n = 0
+		}
 		if n == 0 {
 			solver.Reset()
 			levels = 0
@@ -396,6 +399,7 @@ type Exec struct {
 	sched *scheduler
 	parseMemo map[string]*parseRes
 	atomicOps int
+	pools     map[*Cell][]Value
 }
 
 type inputRec struct {
